@@ -733,7 +733,7 @@ def main():
         "automaton: BFS to the fixpoint of the canonical key over %s events (open(tag) x attribute menu for the 21 known tags + 1 unknown, close, 6 text events) on the real GKFparser, "
         "invariants on every transition (error state absorbing, error => message and line >= 1, recorded error => error state, no sanitizer report, canon-on-replay), accepted end states x 4 algorithms on gama-local; "
         "grammar: all XSD-derived documents %s x 3 attribute modes + one-optional-attribute-at-a-time + every enumeration value, each on gama-local; "
-        "mutate: %s seeds: every split, every prefix%s, every position%s x 12 bytes in-process, accepted mutants and 1/%d of the refused ones on gama-local%s; "
+        "mutate: %s seeds (each valid one also parsed in-process with check_covariances on and off: same clusters, covariance dimension = number of observations): every split, every prefix%s, every position%s x 12 bytes in-process, accepted mutants and 1/%d of the refused ones on gama-local%s; "
         "layout: every valid seed document x %d physical layouts (one line, CRLF, padded lines of 4095/4096/4097/70000 bytes, 9000-byte comment, no final newline, blank lines, tabs, 2000-blank indentation) on gama-local: same class and byte-identical result document as for the original layout; "
         "literals: all strings over 9 letters up to length %d in 5 attribute classes + overflow literals; options: every option x {valid,empty,garbage,missing,before-input}, every pair, 2 inputs, degenerate inputs. "
         "states = canonical parser states + distinct documents/mutants/literals/command lines; transitions = parser events replayed + executable runs"
